@@ -676,6 +676,7 @@ def rule_i(ctx: Ctx) -> None:
     c05_index.rule_m(ctx)
     c05_index.rule_n(ctx)
     c05_index.rule_o(ctx)
+    c05_index.rule_p(ctx)
 
 
 RULES = [rule_c, rule_d, rule_e, rule_f, rule_g, _loops, rule_h, rule_i]
